@@ -89,22 +89,134 @@ def doPtr (args : List String) : String :=
     | none => "err struct"
   | none => "bad-op"
 
+def parseLibOp (s : String) : Option LibOp :=
+  match s.splitOn ":" with
+  | ["k", op, fc, up, h] => do some (.key (← keyOp? op) (← parseBool? fc) (← parseBool? up) (← strOfHex h).toList)
+  | "p" :: rest => (parsePtrOp (":".intercalate rest)).map .ptr
+  | ["paste", h] => (strOfHex h).map fun t => .paste t.toList
+  | ["r", inc] => (parseBool? inc).map .refresh
+  | ["ur", x, y, w, h, inc] => do some (.updateRequest (← x.toNat?) (← y.toNat?) (← w.toNat?) (← h.toNat?) (← parseBool? inc))
+  | ["spf", bpp, d, be, tc, rm, gm, bm, rs, gs, bs] => do
+    some (.setPixelFormat { bpp := ← bpp.toNat?, depth := ← d.toNat?, bigendian := ← parseBool? be, truecolor := ← parseBool? tc,
+                            rmax := ← rm.toNat?, gmax := ← gm.toNat?, bmax := ← bm.toNat?,
+                            rshift := ← rs.toNat?, gshift := ← gs.toNat?, bshift := ← bs.toNat? })
+  | ["se", l] => if l = "-" then some (.setEncodings []) else ((l.splitOn ",").mapM String.toInt?).map .setEncodings
+  | ["ke", k, d] => do some (.keyEvent (← k.toNat?) (← parseBool? d))
+  | ["pe", x, y, m] => do some (.pointerEvent (← x.toNat?) (← y.toNat?) (← m.toNat?))
+  | _ => none
+
+/-- `lib <width> <height> <op>...`: all writes of a history of library operations -/
+def doLib (args : List String) : String :=
+  match args with
+  | w :: h :: ops =>
+    match w.toNat?, h.toNat?, ops.mapM parseLibOp with
+    | some w, some h, some ops =>
+      let r := libRun ⟨PtrSt.init, w, h⟩ ops
+      (if r.2.2 then "ok " else "err ") ++ joinHex r.2.1
+    | _, _, _ => "bad-op"
+  | _ => "bad-op"
+
+/-! ## rfb engine: a session -/
+
+def fnv64 (bs : Bytes) : UInt64 :=
+  bs.foldl (fun h b => (h ^^^ b.toUInt64) * 1099511628211) 14695981039346656037
+
+def hashTok (bs : Bytes) : String := s!"{bs.length}.{(fnv64 bs).toNat}"
+
+def optHex : Option Bytes → String
+  | none => "none"
+  | some b => showHex b
+
+def outTok : Out → String
+  | .write b => "w:" ++ showHex b
+  | .close => "close"
+  | .raise c => "raise:" ++ c
+  | .authFailed r => "authfail:" ++ showHex r
+  | .connFailed => "connfailed"
+  | .made => "made"
+  | .begin => "begin"
+  | .commit rs => "commit:" ++ ";".intercalate (rs.map fun r => s!"{r.1}.{r.2.1}.{r.2.2.1}.{r.2.2.2}")
+  | .update x y w h d => s!"upd:{x}:{y}:{w}:{h}:{hashTok d}"
+  | .fill x y w h c => s!"fill:{x}:{y}:{w}:{h}:{optHex c}"
+  | .copy sx sy x y w h => s!"copy:{sx}:{sy}:{x}:{y}:{w}:{h}"
+  | .cursor x y w h i m => s!"cursor:{x}:{y}:{w}:{h}:{hashTok i}:{hashTok m}"
+  | .desktop w h => s!"desktop:{w}:{h}"
+  | .bell => "bell"
+  | .cutText t => "cut:" ++ showHex t
+  | .colourMap f cs => s!"cmap:{f}:" ++ ",".intercalate (cs.map fun c => s!"{c.1}.{c.2.1}.{c.2.2}")
+
+structure Drv where
+  rfb : Option (St RSt) := none
+  zq : List (Option Bytes) := []
+
+def kind? : String → Option ClientKind
+  | "base" => some .base | "lib" => some .lib | "cli" => some .cli | _ => none
+
+/-- `rfb-new <kind> <haspw> <shared> <encoding> <pseudocursor> <nocursor> <pseudodesktop> <lastrect> <qemu> <authresp> <ardreply>` -/
+def doRfbNew (d : Drv) (args : List String) : Drv × String :=
+  match args with
+  | [k, pw, sh, enc, pc, nc, pd, lr, qx, ar, ard] =>
+    match kind? k, parseBool? pw, parseBool? sh, enc.toInt?, parseBool? pc, parseBool? nc, parseBool? pd,
+          parseBool? lr, parseBool? qx, bytesOfHex ar, bytesOfHex ard with
+    | some k, some pw, some sh, some enc, some pc, some nc, some pd, some lr, some qx, some ar, some ard =>
+      let cfg : Cfg := { kind := k, hasPassword := pw, shared := sh, encoding := enc, pseudocursor := pc, nocursor := nc,
+                         pseudodesktop := pd, lastRect := lr, qemuExt := qx, authResponse := ar, ardReply := ard }
+      ({ d with rfb := some ⟨RSt.init cfg d.zq, []⟩, zq := [] }, "ok")
+    | _, _, _, _, _, _, _, _, _, _, _ => (d, "bad-op")
+  | _ => (d, "bad-op")
+
+def doRfbRecv (d : Drv) (args : List String) : Drv × String :=
+  match d.rfb, args with
+  | some st, [h] =>
+    match bytesOfHex h with
+    | some chunk =>
+      let r := feed rfbMachine st chunk
+      let toks := r.2.1.map outTok ++ (if r.2.2 then [] else ["diverged"])
+      ({ d with rfb := some r.1 }, s!"buf={r.1.buf.length} " ++ (if toks.isEmpty then "-" else " ".intercalate toks))
+    | none => (d, "bad-op")
+  | _, _ => (d, "bad-op")
+
+def doRfbVmRecv (d : Drv) (args : List String) : Drv × String :=
+  match d.rfb, args with
+  | some st, [h] =>
+    match bytesOfHex h with
+    | some chunk =>
+      let r := vmFeed st chunk
+      let toks := r.2.1.map outTok ++ (if r.2.2 then [] else ["diverged"])
+      ({ d with rfb := some r.1 }, s!"buf={r.1.buf.length} " ++ (if toks.isEmpty then "-" else " ".intercalate toks))
+    | none => (d, "bad-op")
+  | _, _ => (d, "bad-op")
+
 def handle (line : String) : String :=
   match (line.splitOn " ").filter (· ≠ "") with
   | "addr" :: args => doAddr args
   | "key" :: args => doKey args
   | "speckey" :: args => doSpecKey args
   | "ptr" :: args => doPtr args
+  | "lib" :: args => doLib args
   | _ => "bad-op"
 
-partial def loop (h : IO.FS.Stream) (out : IO.FS.Stream) : IO Unit := do
+def handleSt (d : Drv) (line : String) : Drv × String :=
+  match (line.splitOn " ").filter (· ≠ "") with
+  | "rfb-z" :: [h] =>
+    if h = "err" then ({ d with zq := d.zq ++ [none] }, "ok")
+    else match bytesOfHex h with
+      | some b => ({ d with zq := d.zq ++ [some b] }, "ok")
+      | none => (d, "bad-op")
+  | "rfb-new" :: args => doRfbNew d args
+  | "rfb-recv" :: args => doRfbRecv d args
+  | "rfb-vmrecv" :: args => doRfbVmRecv d args
+  | _ => (d, handle line)
+
+partial def loop (h : IO.FS.Stream) (out : IO.FS.Stream) (d : Drv) : IO Unit := do
   let line ← h.getLine
   if line.isEmpty then return ()
   let l := if line.endsWith "\n" then (line.dropEnd 1).toString else line
-  out.putStrLn (handle l)
-  loop h out
+  let (d', o) := handleSt d l
+  out.putStrLn o
+  loop h out d'
 
 def main : IO Unit := do
   let stdin ← IO.getStdin
   let stdout ← IO.getStdout
-  loop stdin stdout
+  loop stdin stdout {}
